@@ -31,6 +31,10 @@ class C03(Prop):
         rnd = random.Random(seed * 104729 + 3)
         n = (70 if tier == 'quick' else 1500) * scale
         cases = histlib.gen_uuid_cases(rnd, 20 if tier == 'quick' else 400)
+        # every link container kind: add / has / get / remove by name string, id string and handle, for ordinary,
+        # uuid-shaped and id-valued names (seeded change C03-B)
+        for _ in range(1 if tier == 'quick' else 10 * scale):
+            cases += histlib.gen_c03_link_cases(rnd)
         for i in range(n):
             fl = ['chk-touched', 'chk-touched', 'chk-every-step', 'no-final-reopen'][i % 4]
             cases.append(histlib.gen_c03_case(rnd, rnd.randint(15, 45), fl))
